@@ -3,7 +3,7 @@
  *   depth <n>
  *   seq <ops>      explicit sequence (replay): ops like d0,s2,d2
  * alphabet: d<i> = zck_get_chunk_data(chunk i, buffer of its declared size), s<i> = zck_get_chunk_comp_data(chunk i,
- * buffer of its stored size).  With "extra 1" the alphabet also has history operations whose own results are reported but
+ * buffer of its stored size; "slack <k>": buffers k bytes larger than that).  With "extra 1" the alphabet also has history operations whose own results are reported but
  * not judged: r1 / r40 = zck_read of 1 / 40 bytes on the same context, V = zck_validate_checksums, F = zck_find_valid_chunks
  * (codes 2n .. 2n+3), p<i> = zck_get_chunk_data(chunk i) into a buffer of half the chunk's size (codes 2n+4 ..).  One case per
  * sequence.
@@ -11,7 +11,7 @@
  */
 #include "drv.h"
 
-typedef struct { blob file; int depth; int nchunks; int alpha; int extra; long *starts; long total; char **explicit_seq; int nexp; } qctx;
+typedef struct { blob file; int depth; int nchunks; int alpha; int extra; int slack; long *starts; long total; char **explicit_seq; int nexp; } qctx;
 
 static void do_seq(qctx *c, const int *ops, int n, int idx, FILE *out) {
     int fd = tmp_file_with("cr", c->file.p, c->file.n);
@@ -51,10 +51,12 @@ static void do_seq(qctx *c, const int *ops, int n, int idx, FILE *out) {
         if(!ch) { fprintf(out, "%sNOCHUNK", i ? ";" : ""); continue; }
         ssize_t want = ops[i] % 2 ? zck_get_chunk_comp_size(ch) : zck_get_chunk_size(ch);
         if(want < 0) want = 0;
-        char *buf = calloc(want + 1, 1);
-        ssize_t r = ops[i] % 2 ? zck_get_chunk_comp_data(ch, buf, want) : zck_get_chunk_data(ch, buf, want);
+        /* slack: the caller's buffer is larger than the chunk (a scratch buffer); what comes back must still be the chunk */
+        ssize_t cap = want + c->slack;
+        char *buf = calloc(cap + 1, 1);
+        ssize_t r = ops[i] % 2 ? zck_get_chunk_comp_data(ch, buf, cap) : zck_get_chunk_data(ch, buf, cap);
         fprintf(out, "%s%zd:", i ? ";" : "", r);
-        put_hex(out, buf, r > 0 ? (size_t)(r > want ? want : r) : 0);
+        put_hex(out, buf, r > 0 ? (size_t)(r > cap ? cap : r) : 0);
         free(buf);
     }
     fputc('\n', out);
@@ -99,6 +101,7 @@ int cmd_chunkreq(FILE *job, FILE *out) {
         else if(n >= 2 && !strcmp(t[0], "depth")) c.depth = atoi(t[1]);
         else if(n >= 2 && !strcmp(t[0], "nchunks")) c.nchunks = atoi(t[1]);
         else if(n >= 2 && !strcmp(t[0], "extra")) c.extra = atoi(t[1]);
+        else if(n >= 2 && !strcmp(t[0], "slack")) c.slack = atoi(t[1]);
         else if(n >= 2 && !strcmp(t[0], "seq")) {
             if(c.nexp >= cap) { cap = cap ? cap * 2 : 16; c.explicit_seq = realloc(c.explicit_seq, cap * sizeof(char *)); }
             c.explicit_seq[c.nexp++] = strdup(t[1]);
